@@ -9,7 +9,8 @@ From Coq Require Import String.
 From Emmet Require Import lib.Base lib.StyleLib gen.GenCssSnippets model.CssTokenizer model.CssParser
      model.Score model.Color model.CssSnippets model.CssResolve model.CssFormat run.StyleShow
      proofs.StyleSweep proofs.StyleMatchProofs proofs.StyleReachProofs proofs.StyleKeywordProofs
-     proofs.CssValuePrint proofs.CssValueReach.
+     proofs.CssTokenizerProofs proofs.StyleTokProofs proofs.CssValuePrint proofs.CssValueReach proofs.CssValueLex proofs.CssValueSource
+     proofs.CssValueParse proofs.CssValueSnippet.
 Local Open Scope N_scope.
 
 (* ---- every key of the built-in table reaches its own snippet.
@@ -270,6 +271,113 @@ Proof.
   cbv zeta. do 5 eexists. split; [vm_compute; reflexivity|]. split; [left; reflexivity|].
   split; [split; [discriminate|repeat constructor]|].
   repeat split; vm_compute; reflexivity.
+Qed.
+
+(* ---- FROM THE SNIPPET TEXT (config.snippets), for ALL tables and ALL written values.
+   SPEC (proofs/CssValueSource.v): a written value is a list of [stok]: keyword (a letter, then letters / digits / _ / -),
+   number (C05's numv: sign, digits, fraction, unit), colour (C05's colv: hex digits, optional alpha), quoted string
+   (body without its own quote), or a call `name(arg, arg, ...)` whose arguments are non-empty token lists -- nested to
+   ANY depth ([toks_ok]).  [render v] is its text: tokens separated by one blank, arguments by ", ".
+   [printed cfg t] is what a token prints as (numbers through frac, colours through color/shortHex; keywords and
+   strings as written).
+
+   Tokenizer and parser on that text, for every written value: *)
+Theorem C06_value_text_parses :
+  forall v, toks_ok v -> v <> [] ->
+    exists pv, css_parse true (render v) = Ok [mkProp None [pv] false false] /\ map unpos pv = map cv_tok v.
+Proof. exact css_parse_render. Qed.
+Print Assumptions C06_value_text_parses.
+
+(* END TO END.  The user's table [raw] holds  key -> "prop:" ++ first ++ "|" ++ alt2 ++ "|" ...  where [first] is the
+   text of ANY written value [v]; the other alternatives only have to parse ([map_res parse_value]: otherwise the
+   table does not convert at all) and, like the first, contain no `|`; the text after the colon contains no line
+   break and no `;` ([group_ok]: the regular expression of create_snippet ends a property snippet there).  Then typing
+   the key prints  prop<between> + the first alternative with every leaf token in a tabstop numbered 1..k in document
+   order + <after>.
+   PARTIAL with respect to the statement "for all user property snippets": the layout of the text is the canonical one
+   (exactly one blank between tokens, ", " between arguments, nothing between the colon and the value, no trailing
+   `;`); other layouts and explicit ${n:..} fields written in the text are covered by the parsed-level theorems above
+   (C06_user_value_line_*_partial, for all parsed values) and by the harness, not by a theorem about the text. *)
+Theorem C06_user_snippet_wrapped_partial :
+  forall cfg raw sn key prop v o others po pothers,
+    convert_snippets raw = Ok sn -> NoDup (map (fun kv => lower (fst kv)) raw) ->
+    In (key, prop ++ c_colon :: join [c_pipe] (render v :: o :: others)) raw ->
+    name_ok key -> str_eqb key gradient_name = false -> c_context cfg = None -> c_json cfg = false ->
+    prop_ok prop -> toks_ok v -> v <> [] ->
+    group_ok (join [c_pipe] (render v :: o :: others)) ->
+    no_char c_pipe (render v) -> Forall (no_char c_pipe) (o :: others) ->
+    map_res parse_value (o :: others) = Ok (po :: pothers) ->
+    nobreakb (prop ++ c_between cfg) = true ->
+    expand_with cfg sn key =
+    Ok (prop ++ c_between cfg ++ wprint (relabel (field_of cfg) (map (printed cfg) v)) ++ c_after cfg).
+Proof. exact user_snippet_wrapped. Qed.
+Print Assumptions C06_user_snippet_wrapped_partial.
+
+(* one alternative: unwrapped; [unit_given]: numbers at the top level carry a unit that is not a unit alias (C05 owns
+   the unit rule); [printable]: the texts contain no line break *)
+Theorem C06_user_snippet_plain_partial :
+  forall cfg raw sn key prop v,
+    convert_snippets raw = Ok sn -> NoDup (map (fun kv => lower (fst kv)) raw) ->
+    In (key, prop ++ c_colon :: render v) raw ->
+    name_ok key -> str_eqb key gradient_name = false -> c_context cfg = None -> c_json cfg = false ->
+    prop_ok prop -> toks_ok v -> v <> [] ->
+    group_ok (render v) -> no_char c_pipe (render v) ->
+    forallb (printable cfg) (map cv_tok v) = true -> Forall (unit_given cfg) (map cv_tok v) ->
+    nobreakb (prop ++ c_between cfg) = true ->
+    expand_with cfg sn key = Ok (prop ++ c_between cfg ++ wprint (map (printed cfg) v) ++ c_after cfg).
+Proof. exact user_snippet_plain. Qed.
+Print Assumptions C06_user_snippet_plain_partial.
+
+(* ... "its first listed value" verbatim, when every token prints as it is written (canonical numbers and colours) *)
+Theorem C06_user_snippet_plain_verbatim_partial :
+  forall cfg raw sn key prop v,
+    convert_snippets raw = Ok sn -> NoDup (map (fun kv => lower (fst kv)) raw) ->
+    In (key, prop ++ c_colon :: render v) raw ->
+    name_ok key -> str_eqb key gradient_name = false -> c_context cfg = None -> c_json cfg = false ->
+    prop_ok prop -> toks_ok v -> v <> [] ->
+    group_ok (render v) -> no_char c_pipe (render v) ->
+    forallb (printable cfg) (map cv_tok v) = true -> Forall (unit_given cfg) (map cv_tok v) ->
+    nobreakb (prop ++ c_between cfg) = true ->
+    map (printed cfg) v = map written v ->
+    expand_with cfg sn key = Ok (prop ++ c_between cfg ++ render v ++ c_after cfg).
+Proof. exact user_snippet_plain_verbatim. Qed.
+Print Assumptions C06_user_snippet_plain_verbatim_partial.
+
+(* non-vacuity of the end-to-end theorem, nested call: v = f(g(1px 2px, 3px), #fff) no-repeat, second alternative none *)
+Ltac wf_tac :=
+  repeat match goal with
+         | |- _ /\ _ => split
+         | |- True => exact I
+         | |- Forall _ [] => constructor
+         | |- Forall _ (_ :: _) => constructor
+         | |- _ = _ => reflexivity
+         | |- _ <> _ => discriminate
+         | |- _ \/ _ => first [left; solve [wf_tac] | right; solve [wf_tac]]
+         | |- hexc _ => exact eq_refl
+         end.
+
+Example C06_user_snippet_nonvacuous :
+  let cfg := mkCfg [] None [] [] true (lit ": ") (lit ";") (lit "px") (lit "em") [] false false false f_zero true
+                   (lit "\n") [] (lit "\t") FieldTabstop in
+  let px (n : str) := SNum (mkNum false n None (lit "px")) in
+  let v := [SCall (lit "f") [[SCall (lit "g") [[px (lit "1"); px (lit "2")]; [px (lit "3")]]]; [SCol (mkCol (lit "fff") None)]];
+            SKw (lit "no-repeat")] in
+  let text := lit "m:f(g(1px 2px, 3px), #fff) no-repeat|none" in
+  text = lit "m" ++ c_colon :: join [c_pipe] [render v; lit "none"] /\
+  toks_ok v /\ prop_ok (lit "m") /\ group_ok (join [c_pipe] [render v; lit "none"]) /\
+  no_char c_pipe (render v) /\ Forall (no_char c_pipe) [lit "none"] /\
+  (exists po, map_res parse_value [lit "none"] = Ok [po]) /\
+  (exists sn, convert_snippets [(lit "zq", text)] = Ok sn) /\
+  lit "m" ++ c_between cfg ++ wprint (relabel (field_of cfg) (map (printed cfg) v)) ++ c_after cfg
+  = lit "m: f(g(${1:1px} ${2:2px}, ${3:3px}), ${4:#fff}) ${5:no-repeat};".
+Proof.
+  cbv zeta. split; [vm_compute; reflexivity|].
+  split; [cbn; unfold numv_ok, colv_ok, all_digits, unit_ok; cbn; wf_tac|].
+  split; [split; [discriminate|repeat constructor]|].
+  split; [split; [vm_compute; repeat constructor|vm_compute; reflexivity]|].
+  split; [vm_compute; repeat constructor|]. split; [vm_compute; repeat constructor|].
+  split; [eexists; vm_compute; reflexivity|]. split; [eexists; vm_compute; reflexivity|].
+  vm_compute. reflexivity.
 Qed.
 
 (* ---- scope filter: @@section only raw snippets, @@property only property snippets, and the matcher
